@@ -588,6 +588,12 @@ def inline_helpers(cls, fn, keep=(), depth=3, module=None):
                     rep = expand(s.value, 'assign', s.targets)
                 elif isinstance(s, ast.Return) and isinstance(s.value, ast.Call):
                     rep = expand(s.value, 'return', None)
+                elif isinstance(s, ast.AnnAssign) and isinstance(s.value, ast.Call) and isinstance(s.target, ast.Name):
+                    # a typed declaration with a value (cdef double s = helper(..)): the declaration stays, the value is computed by the inlined body
+                    rep = expand(s.value, 'assign', [ast.Name(id=s.target.id, ctx=ast.Store())])
+                    if rep is not None:
+                        decl = ast.AnnAssign(target=ast.Name(id=s.target.id, ctx=ast.Store()), annotation=s.annotation, value=None, simple=1)
+                        rep = [ast.copy_location(decl, s)] + rep
             if rep is not None:
                 res.extend(walk(rep, level - 1))
                 continue
